@@ -292,6 +292,13 @@ class Filer(hioing.Mixin):
         if os.path.isabs(name):
             raise hioing.FilerError(f"Not relative {name=} path.")
 
+        # relative parts may still climb out of the tail (and head) directory
+        # with '..' segments since only absolute parts are rejected above
+        rel = os.path.normpath(os.path.join(base, name))
+        if rel.split(os.path.sep)[0] == os.path.pardir:
+            raise hioing.FilerError(f"Relative {base=} {name=} path escapes "
+                                    f"its directory.")
+
         if temp:
             headDirPath = tempfile.mkdtemp(prefix=self.TempPrefix,
                                            suffix=self.TempSuffix,
